@@ -218,6 +218,13 @@ func (e *wireEval) branch(fr *wireFrame, iff *ssa.If) *ssa.BasicBlock {
 			return take(v)
 		}
 	}
+	// an assertion (`if m.Subtype == 0 { panic(…) }`): follow the side that goes on
+	if panicsSoon(b.Succs[0]) && !panicsSoon(b.Succs[1]) {
+		return b.Succs[1]
+	}
+	if panicsSoon(b.Succs[1]) && !panicsSoon(b.Succs[0]) {
+		return b.Succs[0]
+	}
 	// a branch that does not lead to a write on either side before the paths rejoin can be ignored; otherwise unknown.
 	if !writesBeforeJoin(b.Succs[0], fr) && !writesBeforeJoin(b.Succs[1], fr) {
 		// follow the edge that does not panic/return early if possible
@@ -228,6 +235,20 @@ func (e *wireEval) branch(fr *wireFrame, iff *ssa.If) *ssa.BasicBlock {
 	}
 	e.fail("branch on %s decides what is written", exprStr(iff.Cond))
 	return nil
+}
+
+func panicsSoon(b *ssa.BasicBlock) bool {
+	for i := 0; i < 3 && b != nil; i++ {
+		switch b.Instrs[len(b.Instrs)-1].(type) {
+		case *ssa.Panic:
+			return true
+		case *ssa.Jump:
+			b = b.Succs[0]
+		default:
+			return false
+		}
+	}
+	return false
 }
 
 func endsEarly(b *ssa.BasicBlock) bool {
